@@ -65,7 +65,11 @@ def singletons(py2):
 
 
 def leaves(py2, surrogates=True):
-    return st.one_of(singletons(py2), ints(), ints(), floats(), complexes(), byteses(),
+    i2 = ints()
+    if py2:
+        # Python 2 has two integer kinds: mark some as long (built as such by the 2.7 worker)
+        i2 = st.tuples(ints(), st.integers(0, 2)).map(lambda p: p[0] + ["L"] if p[1] == 0 else p[0])
+    return st.one_of(singletons(py2), i2, ints(), floats(), complexes(), byteses(),
                      texts(surrogates and not py2), texts(surrogates and not py2))
 
 
